@@ -6,6 +6,7 @@
 package main
 
 import (
+	"bytes"
 	"crypto/sha256"
 	"encoding/hex"
 	"encoding/json"
@@ -120,7 +121,21 @@ func build(extraOverlay string) (string, string) {
 	}
 	run(verif, rw, args...)
 	os.Remove(rw)
-	run(filepath.Join(verif, "xsim"), "go", "test", "-c", "-vet=off", "-overlay", filepath.Join(dir, "ov", "overlay.json"), "-o", bin+".tmp", "./props/")
+	testArgs := []string{"test", "-c", "-vet=off", "-overlay", filepath.Join(dir, "ov", "overlay.json"), "-o", bin + ".tmp"}
+	if repo != "/repo" {
+		// a scratch copy of the repository (seeded-change evaluation): same module file with the
+		// replace directive pointing at the copy
+		mod, err := os.ReadFile(filepath.Join(verif, "xsim", "go.mod"))
+		if err != nil {
+			die(2, "go.mod: %v", err)
+		}
+		mod = bytes.Replace(mod, []byte("github.com/xuperchain/xupercore => /repo"), []byte("github.com/xuperchain/xupercore => "+repo), 1)
+		sumb, _ := os.ReadFile(filepath.Join(verif, "xsim", "go.sum"))
+		os.WriteFile(filepath.Join(dir, "go.mod"), mod, 0o644)
+		os.WriteFile(filepath.Join(dir, "go.sum"), sumb, 0o644)
+		testArgs = append(testArgs, "-modfile", filepath.Join(dir, "go.mod"))
+	}
+	run(filepath.Join(verif, "xsim"), "go", append(testArgs, "./props/")...)
 	os.Rename(bin+".tmp", bin)
 	fmt.Fprintf(os.Stderr, "xsimctl: built worker for tree %s in %.1fs\n", sum, time.Since(start).Seconds())
 	// keep the newest three builds
